@@ -15,7 +15,7 @@ use turmoil_net::{KernelConfig, RuleGuard, Verdict};
 use vcore::Rng;
 
 use super::common::*;
-use crate::engine::{self, ip, now, Fate, Scoped, World};
+use crate::engine::{self, ip, now, Scoped, World};
 
 #[derive(Clone, Debug, PartialEq)]
 pub enum WStep {
@@ -231,7 +231,7 @@ fn run_inner(s: &WireScn, log: &Log, specs: &mut BTreeMap<u32, RuleSpec>, an: &m
     let mut tag_ctr = 0u64;
     let mut local_tags: BTreeSet<u64> = BTreeSet::new();
 
-    let mut free_slot = |slot: u8, sched: &mut BTreeMap<u8, (u32, RuleGuard)>, log: &Log| {
+    let free_slot = |slot: u8, sched: &mut BTreeMap<u8, (u32, RuleGuard)>, log: &Log| {
         // a slot is reused: drop whatever guard lives there first
         if let Some((rid, g)) = sched.remove(&slot) {
             drop(g);
@@ -375,7 +375,6 @@ fn run_inner(s: &WireScn, log: &Log, specs: &mut BTreeMap<u32, RuleSpec>, an: &m
             }
         }
     }
-    let _ = Fate::Deliver;
     // loopback oracle: packets seen by the tap never appear in a rule log
     let tapped_tags: BTreeSet<u64> = tapped.borrow().iter().filter(|t| t.udp).map(|t| t.id).collect();
     let tapped_all: BTreeSet<Tag> = tapped.borrow().iter().cloned().collect();
